@@ -304,8 +304,11 @@ def check_bits(ctx, u):
     bad_bits = []
     unsupported = None
     aw = (width_of_type(dtype(accv)) or (64, False)) if accv else (64, False)
-    for S in (1, 2, 7, 8, 9, 15, 16, 17, 31, 32, 33, 47, 48, 56, 63, 64):
-        for start in (0, 3, 13):
+    sizes = range(1, 65) if ctx.tier == 'thorough' else (1, 2, 7, 8, 9, 15, 16, 17, 31, 32, 33, 47, 48, 56, 63, 64)
+    starts = range(0, 16) if ctx.tier == 'thorough' else (0, 3, 13)
+    ctx.extra['bitreader_unrolled'] = {'sizes': len(list(sizes)), 'start_offsets': len(list(starts))}
+    for S in sizes:
+        for start in starts:
             env = {acc['id']: const_bv(0, aw[0], aw[1]), start_p['id']: const_bv(start, 64), size_p['id']: const_bv(S, 8)}
             I.notes = []
             try:
